@@ -276,6 +276,53 @@ fn sub_histories(input: &[u8], st: &mut Stats) -> R {
     check_history(&h, st)
 }
 
+/// histories with a bijective renaming that sends one to three ids to the extreme values
+/// 0 / 0x7fffffff / 0x80000000 / 0xffffffff (a type id or selector may legally be any word)
+fn sub_edge_ids(input: &[u8], st: &mut Stats) -> R {
+    let mut cs = Cs::new(input);
+    let mut h = gen_history(&mut cs);
+    let mut defined: Vec<u32> = vec![];
+    for i in &h.items {
+        match i {
+            Item::TypeInt { id, .. } | Item::TypeFloat { id, .. } | Item::Value { id, .. } | Item::Const { id, .. } => defined.push(*id),
+            _ => {}
+        }
+    }
+    if defined.is_empty() {
+        return Ok(());
+    }
+    const EDGE: [u32; 4] = [0, u32::MAX, 0x8000_0000, 0x7fff_ffff];
+    let mut map: Vec<(u32, u32)> = vec![];
+    let n = 1 + cs.below(3);
+    for _ in 0..n {
+        let from = defined[cs.below(defined.len())];
+        let to = EDGE[cs.below(4)];
+        if !map.iter().any(|(f, t)| *f == from || *t == to) {
+            map.push((from, to));
+        }
+    }
+    let r = |x: &mut u32| {
+        if let Some((_, t)) = map.iter().find(|(f, _)| *f == *x) {
+            *x = *t;
+        }
+    };
+    for i in h.items.iter_mut() {
+        match i {
+            Item::TypeInt { id, .. } | Item::TypeFloat { id, .. } => r(id),
+            Item::Value { ty, id, .. } | Item::Const { ty, id, .. } => {
+                r(ty);
+                r(id);
+            }
+            Item::Switch { sel, .. } => r(sel),
+            Item::Other(_) => {}
+        }
+    }
+    for (_, t) in &map {
+        st.count(&format!("edge_id_{:#x}", t));
+    }
+    check_history(&h, st)
+}
+
 /// the decision depends only on the current parse: B after A == B alone; A twice equal
 fn sub_independence(input: &[u8], st: &mut Stats) -> R {
     let mut cs = Cs::new(input);
@@ -344,6 +391,7 @@ pub const SUBS: &[Sub] = &[
     Sub { name: "grid", f: sub_grid },
     Sub { name: "histories", f: sub_histories },
     Sub { name: "independence", f: sub_independence },
+    Sub { name: "edge-ids", f: sub_edge_ids },
 ];
 
 pub fn run(ctx: &Ctx) {
@@ -351,13 +399,14 @@ pub fn run(ctx: &Ctx) {
     drive_enum(ctx, &SUBS[0], 9 * 2 * 2 * 3 * 2 * 3 * 3);
     drive_random(ctx, &SUBS[1], ctx.n(60_000, 30_000_000), 600);
     drive_random(ctx, &SUBS[2], ctx.n(1_000, 150_000), 1200);
+    drive_random(ctx, &SUBS[3], ctx.n(20_000, 10_000_000), 600);
 }
 
 pub fn finish(ctx: &Ctx) -> i32 {
     crate::engine::finish(
         ctx,
         Finish {
-            rule: "cases: (a) complete grid: {int,float} x widths {8,16,32,64,1,24,48,128,0} x signedness x consumer {OpConstant, OpSpecConstant, OpSwitch with 2 cases} x {1,2} literal words x propagation depth 0-2 x distance 0-2; (b) random histories of 2-15 instructions interleaving OpTypeInt/OpTypeFloat (supported and unsupported widths), typed values (OpUndef/OpVariable/OpLoad/OpIAdd chains), consumers placed before/after their declarations, each encoded with 1 or 2 literal words, and unrelated instructions; ids defined once; (c) pairs (A, B): B after A in the same thread vs B alone in a fresh thread, A twice. Oracle: model R3 (inside reference parser R1): words consumed / TypeUnsupported / accept-or-reject of each consumer, delivered variant LiteralBit32 vs LiteralBit64 with value = low | high<<32, assemble emits the input's word count, outcomes independent of earlier parses. non-trivial = consumer whose type was declared >= 2 instructions earlier or reaches it through >= 1 propagation step (independence: every pair); distinct = hash of the words.",
+            rule: "cases: (a) complete grid: {int,float} x widths {8,16,32,64,1,24,48,128,0} x signedness x consumer {OpConstant, OpSpecConstant, OpSwitch with 2 cases} x {1,2} literal words x propagation depth 0-2 x distance 0-2; (b) random histories of 2-15 instructions interleaving OpTypeInt/OpTypeFloat (supported and unsupported widths), typed values (OpUndef/OpVariable/OpLoad/OpIAdd chains), consumers placed before/after their declarations, each encoded with 1 or 2 literal words, and unrelated instructions; ids defined once; (b') the same histories under a bijective id renaming that sends 1-3 defined ids to 0 / 0x7fffffff / 0x80000000 / 0xffffffff; (c) pairs (A, B): B after A in the same thread vs B alone in a fresh thread, A twice. Oracle: model R3 (inside reference parser R1): words consumed / TypeUnsupported / accept-or-reject of each consumer, delivered variant LiteralBit32 vs LiteralBit64 with value = low | high<<32, assemble emits the input's word count, outcomes independent of earlier parses. non-trivial = consumer whose type was declared >= 2 instructions earlier or reaches it through >= 1 propagation step (independence: every pair); distinct = hash of the words.",
             assumptions: vec!["ids are defined once (generators respect it)".into()],
             trusted_base: vec!["width model R3".into(), "reference parser R1".into()],
         },
